@@ -23,8 +23,8 @@ ASSUMPTIONS = ["python-axolotl replaced by an ideal manager stub", "reply bodies
 EXPLANATION = "symbolic execution of the request registries in the assembled stack; reply id is a z3 string, histories are solver-chosen"
 
 
-def _iface_cls():
-    from yowsup.layers.interface import YowInterfaceLayer
+def _iface_cls(decorated=False):
+    from yowsup.layers.interface import YowInterfaceLayer, ProtocolEntityCallback
 
     class AppIface(YowInterfaceLayer):
         def __init__(self):
@@ -37,11 +37,31 @@ def _iface_cls():
 
         def request(self, req, tagname):
             self._sendIq(req, lambda res, orig: self.calls.append((tagname, "ok", res, orig)), lambda err, orig: self.calls.append((tagname, "err", err, orig)))
-    return AppIface
+    if not decorated:
+        return AppIface
+
+    class DecoratedApp(AppIface):
+        """an application that also declares catch-all handlers per stanza kind, as the library's own demo applications do"""
+        @ProtocolEntityCallback("iq")
+        def onIq(self, e):
+            self.other.append(e)
+
+        @ProtocolEntityCallback("message")
+        def onMessage(self, e):
+            self.other.append(e)
+
+        @ProtocolEntityCallback("receipt")
+        def onReceipt(self, e):
+            self.other.append(e)
+
+        @ProtocolEntityCallback("notification")
+        def onNotification(self, e):
+            self.other.append(e)
+    return DecoratedApp
 
 
-def _stack(sessions=True):
-    st, bottom, app, mgr = ST.build(enc=True, top=_iface_cls(), sessions=sessions, **ST.FLAG_SETS["all"])
+def _stack(sessions=True, decorated=False):
+    st, bottom, app, mgr = ST.build(enc=True, top=_iface_cls(decorated), sessions=sessions, **ST.FLAG_SETS["all"])
     from yowsup.layers.protocol_iq import YowIqProtocolLayer
     st.setProp(YowIqProtocolLayer.PROP_PING_INTERVAL, 0)
     return st, bottom, app, mgr
@@ -110,8 +130,8 @@ def _counts(app, tagname):
     return ok, err
 
 
-def h_step(ctx, kind):
-    st, bottom, app, mgr = _stack()
+def h_step(ctx, kind, decorated=False):
+    st, bottom, app, mgr = _stack(decorated=decorated)
     req, body = _request(kind)
     app.request(req, "r")
     obs = [("request-left-the-stack-once (got %d)" % len(bottom.down), len(bottom.down) == 1)]
@@ -435,6 +455,8 @@ def _history_kinds(case):
 def cases(tier):
     q = tier == "quick"
     cs = [dict(name="step[%s]" % k, fn=h_step, args=(k,)) for k in KINDS]
+    for k in ("ping", "lastseen", "picture-get") if q else KINDS:
+        cs.append(dict(name="step[%s,application with catch-all stanza handlers]" % k, fn=h_step, args=(k, True)))
     if q:
         cs.append(dict(name="history[2req,3del]", fn=h_history, args=(2, 3, ("lastseen", "group-info", "contact-sync", "picture-get")), max_paths=20000, timeout_s=300, weight=50))
     else:
